@@ -118,34 +118,71 @@ def snapshotting_int(check: Check, repo: Repo) -> None:
         "__int__": lambda v, sv, a: (v, sv, v),
     }
     states = [(v, list(sv)) for v in range(3) for k in range(3) for sv in itertools.product(range(3), repeat=k)]
+
+    # states are built and read through the public interface only (whatever the fields are called): the value is set
+    # with zero() and += k, saved with snapshot(); what is saved is observed by restoring - on a second, identically
+    # built object per depth, since restoring consumes
+    def set_value(obj, x: int):  # noqa: ANN001, ANN202
+        cm.call(obj, "zero")
+        if x:
+            r = cm.call(obj, "__add__", x)
+            if r is not obj:
+                raise ModelRaise("__add__ does not return the counter itself")
+        return obj
+
+    def build(v: int, sv: list):  # noqa: ANN202
+        obj = cm.new("SnapshottingInt", 0)
+        for x in sv:
+            set_value(obj, x)
+            cm.call(obj, "snapshot")
+        return set_value(obj, v)
+
+    def observe(v: int, sv: list, q: str, a) -> tuple:  # noqa: ANN001
+        """(value after q, [values after 1, 2, ... restores] up to one past the saved depth, return value)"""
+        seen = []
+        ret = None
+        cur = None
+        for depth in range(len(sv) + 3):
+            obj = build(v, sv)
+            r = cm.call(obj, q, *([a] if a is not None else []))
+            if depth == 0:
+                ret = "self" if r is obj else r
+                cur = cm.call(obj, "__int__")
+            else:
+                for _ in range(depth):
+                    cm.call(obj, "restore")
+                seen.append(cm.call(obj, "__int__"))
+        return cur, seen, ret
+
+    def expected(v: int, sv: list, q: str, a) -> tuple:  # noqa: ANN001
+        want_v, want_sv, want_ret = ops[q](v, sv, a)
+        seen = []
+        for depth in range(1, len(sv) + 3):
+            vv, ss = want_v, list(want_sv)
+            for _ in range(depth):
+                vv, ss = (ss[-1], ss[:-1]) if ss else (0, [])
+            seen.append(vv)
+        return want_v, seen, want_ret
+
     for q, spec in ops.items():
         bad = None
         n = 0
         for v, sv in states:
             for a in ((0, 1) if q.startswith("__") and q != "__int__" else (None,)):
                 n += 1
-                obj = cm.new("SnapshottingInt", v)
-                for x in sv:
-                    obj.__dict__["_value"] = x
-                    cm.call(obj, "snapshot")
-                obj.__dict__["_value"] = v
-                if q != "snapshot" and obj.__dict__.get("_checkpoints") != sv:
-                    bad = bad or f"value={v}: after snapshots of {sv} the saved list is {obj.__dict__.get('_checkpoints')}"
-                    continue
-                want_v, want_sv, want_ret = spec(v, sv, a)
                 try:
-                    ret = cm.call(obj, q, *([a] if a is not None else []))
+                    got = observe(v, sv, q, a)
                 except ModelRaise as err:
                     bad = bad or f"value={v} saved={sv}: raises {err}"
                     continue
-                got = (obj.__dict__.get("_value"), obj.__dict__.get("_checkpoints"))
-                if got != (want_v, want_sv):
-                    bad = bad or f"value={v} saved={sv}{'' if a is None else f' arg={a}'}: leaves value={got[0]} saved={got[1]}, a plain value with a list of copies would have value={want_v} saved={want_sv}"
-                elif want_ret == "self":
-                    if ret is not obj:
+                want = expected(v, sv, q, a)
+                if got[:2] != want[:2]:
+                    bad = bad or f"value={v} saved={sv}{'' if a is None else f' arg={a}'}: afterwards the value is {got[0]} and successive restores give {got[1]}; a plain value with a list of copies has {want[0]} and {want[1]}"
+                elif want[2] == "self":
+                    if got[2] != "self":
                         bad = bad or f"value={v} saved={sv}: does not return the counter itself (`state.atomic_depth += 1` would rebind the field)"
-                elif ret != want_ret:
-                    bad = bad or f"value={v} saved={sv}{'' if a is None else f' arg={a}'}: returns {ret!r} instead of {want_ret!r}"
+                elif got[2] != want[2]:
+                    bad = bad or f"value={v} saved={sv}{'' if a is None else f' arg={a}'}: returns {got[2]!r} instead of {want[2]!r}"
         construct = f"{CINT}::SnapshottingInt.{q}"
         sig = "does not behave like a value with a list of saved copies"
         check.oblige("PAIRING", construct, f"agrees with a value plus a list of saved copies on all {n} model states" if bad is None else sig, bad is None,
